@@ -36,7 +36,10 @@ RingL == <<<<-8, -8>>, <<8, -8>>, <<8, 0>>, <<0, 0>>, <<0, 8>>, <<-8, 8>>>>
 Polys == { Poly(<<RingL>>),                                                                  \* L-shape, counter-clockwise
            Poly(<<[i \in 1..6 |-> RingL[7 - i]]>>),                                          \* the same, clockwise
            Poly(<<<<<<-8, -6>>, <<8, -4>>, <<2, 0>>, <<6, 8>>, <<-6, 6>>>>>>),                \* slanted edges, one re-entrant vertex
-           Poly(<<<<<<-10, -10>>, <<10, -10>>, <<10, 10>>, <<-10, 10>>>>, <<<<-2, -2>>, <<6, -2>>, <<6, 6>>, <<-2, 6>>>>>>) }   \* square with a square hole
+           Poly(<<<<<<-10, -10>>, <<10, -10>>, <<10, 10>>, <<-10, 10>>>>, <<<<-2, -2>>, <<6, -2>>, <<6, 6>>, <<-2, 6>>>>>>),    \* square with a square hole
+           \* a rectangular spiral (corridor of width 1/2, two turns): its unconstrained Delaunay triangulation has triangles that straddle the outline
+           Poly(<<<<<<8, -8>>, <<8, 8>>, <<-8, 8>>, <<-8, -4>>, <<4, -4>>, <<4, 4>>, <<-4, 4>>, <<-4, 0>>, <<1, 0>>, <<1, -2>>, <<-6, -2>>, <<-6, 6>>, <<6, 6>>, <<6, -6>>,
+                      <<-10, -6>>, <<-10, 10>>, <<10, 10>>, <<10, -10>>, <<-9, -10>>, <<-9, -8>>>>>>) }
 Mesh(vs, fs, tets) == [k |-> "mesh", v |-> "y", vs |-> vs, fs |-> fs, tets |-> tets]
 MeshTet == Mesh(<<<<-4, -4, -4>>, <<8, -4, -4>>, <<-4, 8, -4>>, <<-4, -4, 8>>>>,
                 <<<<1, 2, 3>>, <<1, 2, 4>>, <<1, 3, 4>>, <<2, 3, 4>>>>, <<<<1, 2, 3, 4>>>>)              \* mixed winding of the faces
